@@ -26,6 +26,10 @@ def cache_rule(ctx, rule_id, prop_id, base_names, floor, clause, only_fields=Non
             if only_props and prop not in only_props and prop not in _feeding_props(K, feeds):
                 continue  # selected by the public property that is memoised; its private cache field may be called anything
             d = deps(K, getter, fld)
+            if only_props and prop not in only_props:
+                # a memo UNDER a geometry getter: what it reads through ANOTHER memoised getter is that getter's cache field, not the
+                # inputs of that getter in turn (whoever leaves `_parts` stale is reported for `parts`; `unique_parts` follows `_parts`)
+                d = _deps_cut(K, getter, fld)
             if not d:
                 continue
             n_memo += 1
@@ -67,6 +71,27 @@ def cache_rule(ctx, rule_id, prop_id, base_names, floor, clause, only_fields=Non
     if n_memo == 0:
         raise AnalysisError(f"{rule_id}: no memoised getter found (anchor lost)")
     return res
+
+
+def _deps_cut(K, getter, fld) -> set:
+    import ast
+
+    memo = {pn: f for pn, f, _g in memo_getters(K)}
+    out = set()
+    sn = getter.self_name
+    for n in ast.walk(getter.node):
+        if isinstance(n, ast.Attribute) and isinstance(n.value, ast.Name) and n.value.id == sn and isinstance(n.ctx, ast.Load):
+            m = K.lookup(n.attr)
+            if n.attr in memo and memo[n.attr] != fld:
+                out.add(memo[n.attr])
+            elif m and m[1] == "prop" and m[2].getter is not None and m[2].getter is not getter:
+                out |= deps(K, m[2].getter, fld)
+            elif m and m[1] == "method":
+                out |= deps(K, m[2], fld)
+            elif n.attr.startswith("_") and not n.attr.startswith("__") and n.attr != fld:
+                out.add(n.attr)
+    out.discard(fld)
+    return out
 
 
 def _feeding_props(K, feeds) -> set:
